@@ -333,6 +333,9 @@ def check_summand(facts, rep):
                         return (('rem', ev(t[2][0]), ev(t[2][1])),)
                     if t[0] == 'call' and t[1].split('::')[-1] == 'clone' and len(t[2]) == 1:
                         return (ev(t[2][0]),)
+                    if t[0] == 'call' and t[1].split('::')[-1] == 'checked_sub' and len(t[2]) == 2:
+                        a_, b_ = ev(t[2][0]), ev(t[2][1])
+                        return ({'<variant>': 1, 'Some.0': a_ - b_},) if a_ >= b_ else ({'<variant>': 0},)
                     if t[0] == 'index' and dk(t[1]).startswith('tors('):
                         return (('tors', ev(t[2])),)
                     if t[0] == 'call' and t[1].split('::')[-1] == 'index' and len(t[2]) == 2 and dk(t[2][0]).startswith('tors('):
